@@ -96,6 +96,22 @@ macro_rules! run_width {
                 let av = ringv(&$c["v"]);
                 let axis = $V3::new(av[0] as $S, av[1] as $S, av[2] as $S).normalize();
                 near($cx, $c, "from_axis_angle", stringify!($M3), &exp, &f64s!($M3::from_axis_angle(axis, th).to_cols_array()), tol);
+                // the same against the Rodrigues formula evaluated in f64 from the axis and the angle actually passed: a few epsilon whatever
+                // the number of turns (an angle re-derived from |axis * angle| is off by an ulp of the ANGLE, 1e-5 rad at 150 rad)
+                {
+                    let a = f64s!(axis.to_array());
+                    let (sr, cr) = (th as f64).sin_cos();
+                    let k = 1.0 - cr;
+                    let refm = [cr + k * a[0] * a[0], k * a[0] * a[1] + sr * a[2], k * a[0] * a[2] - sr * a[1],
+                                k * a[0] * a[1] - sr * a[2], cr + k * a[1] * a[1], k * a[1] * a[2] + sr * a[0],
+                                k * a[0] * a[2] + sr * a[1], k * a[1] * a[2] - sr * a[0], cr + k * a[2] * a[2]];
+                    let rt = 8.0 * (<$S>::EPSILON as f64);
+                    near($cx, $c, "from_axis_angle = Rodrigues of the given axis and angle", stringify!($M3), &refm, &f64s!($M3::from_axis_angle(axis, th).to_cols_array()), rt);
+                    near($cx, $c, "from_axis_angle = Rodrigues of the given axis and angle", stringify!($M4), &refm, &m3_of4(&f64s!($M4::from_axis_angle(axis, th).to_cols_array())), rt);
+                    near($cx, $c, "from_axis_angle = Rodrigues of the given axis and angle", stringify!($A3), &refm, &f64s!($A3::from_axis_angle(axis, th).to_cols_array())[..9], rt);
+                    near($cx, $c, "from_axis_angle = Rodrigues of the given axis and angle", stringify!($Q), &refm, &f64s!($M3::from_quat($Q::from_axis_angle(axis, th)).to_cols_array()), 2.0 * rt);
+                    $( near($cx, $c, "from_axis_angle = Rodrigues of the given axis and angle", stringify!($M3X), &refm, &f64s!($M3X::from_axis_angle(axis, th).to_cols_array()), rt); )*
+                }
                 $( near($cx, $c, "from_axis_angle", stringify!($M3X), &exp, &f64s!($M3X::from_axis_angle(axis, th).to_cols_array()), tol); )*
                 $( near($cx, $c, "from_axis_angle", stringify!($M3X), &exp, &f64s!($M3X::from_axis_angle(axis, th).to_cols_array()), tol); )*
                 let m4v = f64s!($M4::from_axis_angle(axis, th).to_cols_array());
